@@ -381,11 +381,23 @@ def close(impl, model):
     return math.isfinite(impl) and abs(impl - model) <= TOL * max(1.0, abs(model))
 
 
+_RES = [None]
+
+
 def call_metric(name, A, dim):
+    """the real sparse kernel; an exception on a valid input is a property violation (reported once per
+    kernel), and NaN is returned so that the model comparison fails as well"""
     f = sparse.sparse_named_distances[name]
-    if name in sparse.sparse_need_n_features:
-        return float(f(A[0], A[1], A[2], A[3], dim))
-    return float(f(A[0], A[1], A[2], A[3]))
+    try:
+        if name in sparse.sparse_need_n_features:
+            return float(f(A[0], A[1], A[2], A[3], dim))
+        return float(f(A[0], A[1], A[2], A[3]))
+    except Exception as e:  # noqa
+        if _RES[0] is not None:
+            _RES[0].violation("sparse:%s:exception" % name, "sparse kernel raised %s on ind1=%s data1=%s ind2=%s data2=%s n_features=%d"
+                              % (type(e).__name__, A[0].tolist(), A[1].tolist(), A[2].tolist(), A[3].tolist(), dim),
+                              {"name": name, "ind1": A[0].tolist(), "data1": A[1].tolist(), "ind2": A[2].tolist(), "data2": A[3].tolist(), "dim": dim})
+        return float("nan")
 
 
 def angular(dot, n1, n2):
@@ -530,6 +542,7 @@ def check_case(res, case, out_lines, with_metrics):
 
 def run_kernels(res, rng, n_cases):
     """Exhaustive small part (always) + n_cases random larger pairs; see the module docstring."""
+    _RES[0] = res
     cases = list(gen_exhaustive(rng))
     res.count("cases:exhaustive", len(cases))
     cases += [gen_random(rng, i) for i in range(n_cases)]
